@@ -21,16 +21,19 @@
 EXTENDS Naturals, Sequences, FiniteSets, TLC
 
 CONSTANTS LitPlusSet,   \* set of BOOLEAN: server advertises LITERAL+ (LITERAL- is implied by IMAP4rev1)
-          Utf8Set       \* set of BOOLEAN: the client has enabled UTF8=ACCEPT (the server may then quote 8-bit strings)
+          Utf8Set,      \* set of BOOLEAN: the client has enabled UTF8=ACCEPT (the server may then quote 8-bit strings)
+          SaslSet       \* set of BOOLEAN: the backend session brings its own SASL mechanisms (SessionSASL), one of
+                        \* which (XFINAL) ends with data for the client (as SCRAM's server signature does)
 
 VARIABLES litplus,  \* configuration, chosen in Init
           utf8,     \* configuration, chosen in Init (only an authenticated connection can have enabled anything)
+          sasl,     \* configuration, chosen in Init
           state,    \* "notauth" | "auth"
           closed,   \* connection closed by the server
           stuck,    \* server is consuming an over-long literal whose octets the client never sends
           out       \* observation of the last unit
 
-vars == <<litplus, utf8, state, closed, stuck, out>>
+vars == <<litplus, utf8, sasl, state, closed, stuck, out>>
 
 \* ---- units -------------------------------------------------------------
 \* placements of the string argument
@@ -39,7 +42,11 @@ vars == <<litplus, utf8, state, closed, stuck, out>>
 BufferedCmds == {"LOGIN-user", "LOGIN-pass", "CREATE", "LIST-pat", "SEARCH-str", "RENAME-new", "FETCH-hdr"}
 StreamCmds   == {"APPEND"}
 SyntaxCmds   == {"NOOP-lit", "XUNK-lit"}       \* literal announced after a syntax error / unknown command
-PlainCmds    == {"NOOP", "AUTH-CANCEL", "IDLE"} \* no literal; the latter two use continuation requests
+\* no literal; AUTH-CANCEL and IDLE use continuation requests.  AUTH-FINAL: AUTHENTICATE XFINAL <initial response> -
+\* the mechanism accepts and has final data for the client: the server may send them in one more continuation
+\* request (which the client answers with an empty line - that line belongs to the exchange, it is no command) or
+\* leave them out
+PlainCmds    == {"NOOP", "AUTH-CANCEL", "IDLE", "AUTH-FINAL"}
 UnitCmds == BufferedCmds \cup StreamCmds \cup SyntaxCmds \cup PlainCmds
 
 Forms    == {"quoted", "sync", "nonsync"}
@@ -71,7 +78,7 @@ Accepts(u) ==
 
 \* Does the command, once parsed, succeed in the current state?
 Permitted(u) ==
-  CASE u.cmd \in {"LOGIN-user", "LOGIN-pass", "AUTH-CANCEL"} -> state = "notauth"
+  CASE u.cmd \in {"LOGIN-user", "LOGIN-pass", "AUTH-CANCEL", "AUTH-FINAL"} -> state = "notauth"
     [] u.cmd \in {"NOOP"} -> TRUE
     [] u.cmd \in SyntaxCmds -> FALSE
     [] OTHER -> state = "auth"
@@ -87,12 +94,14 @@ Init ==
   /\ litplus \in LitPlusSet
   /\ state \in {"notauth", "auth"}
   /\ utf8 \in Utf8Set /\ (utf8 => state = "auth")
+  /\ sasl \in SaslSet /\ (sasl => state = "notauth" /\ ~litplus)
   /\ closed = FALSE /\ stuck = FALSE
   /\ out = Obs("OK", 0, "none")
 
 Alive == ~closed /\ ~stuck
 
-CallOf(u) == IF u.cmd \in {"NOOP", "AUTH-CANCEL"} THEN "none"
+CallOf(u) == IF u.cmd \in {"AUTH-CANCEL", "AUTH-FINAL"} THEN (IF sasl THEN "plain" ELSE "none")   \* the session is asked for the mechanism
+             ELSE IF u.cmd = "NOOP" THEN "none"
              ELSE IF u.cmd = "IDLE" THEN "plain"
              ELSE IF u.cmd \in {"LIST-pat", "SEARCH-str", "LOGIN-user", "LOGIN-pass", "CREATE", "RENAME-new", "APPEND", "FETCH-hdr"} THEN "payload"
              ELSE "none"
@@ -103,7 +112,7 @@ MailboxCmds == {"CREATE", "LIST-pat", "RENAME-new"}
 
 \* The unit is accepted by the framing layer and executed (or refused by the state check).
 Execute(u) ==
-  /\ Alive /\ WellFormedUnit(u) /\ Accepts(u) /\ u.cmd \notin SyntaxCmds
+  /\ Alive /\ WellFormedUnit(u) /\ Accepts(u) /\ u.cmd \notin SyntaxCmds /\ u.cmd # "AUTH-FINAL"
   /\ LET c == IF u.form = "sync" \/ u.cmd \in {"AUTH-CANCEL", "IDLE"} THEN 1 ELSE 0 IN
      IF Permitted(u)
      THEN \/ /\ out' = Obs(IF u.cmd = "AUTH-CANCEL" THEN "NOTOK" ELSE "OK", c, CallOf(u))
@@ -117,13 +126,23 @@ Execute(u) ==
   \* drop the connection (the property allows closing instead of going on)
   /\ \/ closed' = closed
      \/ closed' = TRUE /\ u.cmd \in MailboxCmds /\ u.payload = "smuggle" /\ out'.tagged = "NOTOK"
-  /\ UNCHANGED <<litplus, utf8, stuck>>
+  /\ UNCHANGED <<litplus, utf8, sasl, stuck>>
+
+\* AUTHENTICATE with a mechanism that ends with data for the client
+ExecAuthFinal(u) ==
+  /\ Alive /\ u.cmd = "AUTH-FINAL"
+  /\ IF Permitted(u) /\ sasl
+     THEN /\ \E c \in {0, 1} : out' = Obs("OK", c, "plain")
+          /\ state' = "auth"
+     ELSE \* wrong state, or a session that does not know the mechanism
+          /\ out' = Obs("NOTOK", 0, "none") /\ state' = state
+  /\ UNCHANGED <<litplus, utf8, sasl, closed, stuck>>
 
 \* A synchronising literal the server does not want: tagged refusal, no continuation request.
 RefuseSync(u) ==
   /\ Alive /\ WellFormedUnit(u) /\ u.form = "sync" /\ ~Accepts(u)
   /\ out' = Obs("NOTOK", 0, "none")
-  /\ UNCHANGED <<litplus, utf8, state, closed, stuck>>
+  /\ UNCHANGED <<litplus, utf8, sasl, state, closed, stuck>>
 
 \* A non-synchronising literal the server does not want.  RFC 7888 leaves two options.
 RefuseNonSyncConsume(u) ==
@@ -132,22 +151,22 @@ RefuseNonSyncConsume(u) ==
      THEN \* the client announces more than it will ever send: the server waits for the rest
           /\ stuck' = TRUE /\ \E t \in {"NOTOK", "NONE"} : out' = Obs(t, 0, "none")
      ELSE /\ stuck' = FALSE /\ out' = Obs("NOTOK", 0, "none")
-  /\ UNCHANGED <<litplus, utf8, state, closed>>
+  /\ UNCHANGED <<litplus, utf8, sasl, state, closed>>
 
 RefuseNonSyncClose(u) ==
   /\ Alive /\ WellFormedUnit(u) /\ u.form = "nonsync" /\ ~Accepts(u)
   /\ closed' = TRUE
   /\ \E t \in {"NOTOK", "NONE"} : out' = Obs(t, 0, "none")
-  /\ UNCHANGED <<litplus, utf8, state, stuck>>
+  /\ UNCHANGED <<litplus, utf8, sasl, state, stuck>>
 
 \* An unknown command before authentication ends the connection (cross-protocol protection);
 \* whatever follows on the wire is never read.
 UnknownPreAuth(u) ==
   /\ Alive /\ WellFormedUnit(u) /\ u.cmd = "XUNK-lit" /\ state = "notauth"
   /\ closed' = TRUE /\ out' = Obs("NOTOK", 0, "none")
-  /\ UNCHANGED <<litplus, utf8, state, stuck>>
+  /\ UNCHANGED <<litplus, utf8, sasl, state, stuck>>
 
-Step(u) == \/ Execute(u)
+Step(u) == \/ Execute(u) \/ ExecAuthFinal(u)
            \/ (~(u.cmd = "XUNK-lit" /\ state = "notauth") /\ (RefuseSync(u) \/ RefuseNonSyncConsume(u) \/ RefuseNonSyncClose(u)))
            \/ UnknownPreAuth(u)
 
